@@ -76,6 +76,11 @@ def Ast.size : Ast α → Nat
   | .not c => c.size + 1
   | .bin _ l r => l.size + r.size + 1
 
+def Ast.height : Ast α → Nat
+  | .leaf _ => 1
+  | .not c => c.height + 1
+  | .bin _ l r => max l.height r.height + 1
+
 theorem propagateNot_sound (env : α → Bool) (t : Ast α) (h : t.NoNand) :
     (((propagateNot t).1.eval env) != (propagateNot t).2) = t.eval env := by
   induction t with
